@@ -1236,6 +1236,18 @@ fn ga(a: &GA) -> String {
 
 /// `def` / `spot` op text for one random definition
 fn gen_def(rng: &mut Rng, exs: &[usize], assets: &[GA], inames: &[String], uni: bool) -> String {
+    gen_def_w(rng, exs, assets, inames, uni, false)
+}
+
+/// decimals of the `big` family: zero, small, multi-digit (9 / 10 / 100: numeric order is not the
+/// order of the digit strings), the largest magnitudes a real specification carries
+const VALS: [u64; 9] = [0, 1, 2, 5, 9, 10, 100, 999_999_999_999, 1_000_000_000_000];
+
+/// `wide`: every decimal from `VALS` (otherwise the draws of the original generator, unchanged)
+fn gen_def_w(rng: &mut Rng, exs: &[usize], assets: &[GA], inames: &[String], uni: bool, wide: bool) -> String {
+    let val = |rng: &mut Rng, lo: i64, hi: i64| -> u64 {
+        if wide { *rng.pick(&VALS) } else { rng.range(lo, hi) as u64 }
+    };
     let e = *rng.pick(exs);
     let pick_asset = |rng: &mut Rng| {
         let a = rng.pick(assets).clone();
@@ -1260,11 +1272,11 @@ fn gen_def(rng: &mut Rng, exs: &[usize], assets: &[GA], inames: &[String], uni: 
         };
         format!(
             "y {} {} {unit} {} {} {}",
-            rng.below(3),
-            rng.below(3),
-            rng.below(3),
-            rng.below(3),
-            rng.below(3)
+            val(rng, 0, 2),
+            val(rng, 0, 2),
+            val(rng, 0, 2),
+            val(rng, 0, 2),
+            val(rng, 0, 2)
         )
     };
     if rng.chance(15) {
@@ -1272,16 +1284,16 @@ fn gen_def(rng: &mut Rng, exs: &[usize], assets: &[GA], inames: &[String], uni: 
     }
     let kind = match rng.below(6) {
         0 | 1 | 2 => "s".to_string(),
-        3 => format!("p {} {}", rng.range(1, 3), ga(&pick_asset(rng))),
-        4 => format!("f {} {} {}", rng.range(1, 3), ga(&pick_asset(rng)), gen_expiry(rng)),
+        3 => format!("p {} {}", val(rng, 1, 3), ga(&pick_asset(rng))),
+        4 => format!("f {} {} {}", val(rng, 1, 3), ga(&pick_asset(rng)), gen_expiry(rng)),
         _ => format!(
             "o {} {} {} {} {} {}",
-            rng.range(1, 3),
+            val(rng, 1, 3),
             ga(&pick_asset(rng)),
             rng.below(2),
             rng.below(3),
             gen_expiry(rng),
-            rng.pick(&[0u64, 1, 50000, 123456])
+            if wide { *rng.pick(&VALS) } else { *rng.pick(&[0u64, 1, 50000, 123456]) }
         ),
     };
     format!(
@@ -1382,6 +1394,81 @@ fn index_case(out: &mut Out, rng: &mut Rng, big: bool) {
     lookups(out, rng, &exs, &assets, &inames, n_defs, count);
 }
 
+/// Input-domain family `b`: a LARGE collection (`n_defs` definitions over 3-8 exchanges of the whole
+/// enum, 8-24 assets, a pool of instrument names about a third the size of the collection so that
+/// definitions share (exchange, name)), decimals from `VALS`, then lookups by every kind of key with
+/// the positional ones concentrated at the far end of the tables (last entry, one past, far past).
+fn index_case_big(out: &mut Out, rng: &mut Rng, n_defs: usize) {
+    let n_ex = rng.range(3, 8) as usize;
+    let mut all: Vec<usize> = (0..ALL.len()).collect();
+    for i in (1..all.len()).rev() {
+        let j = rng.below(i as u64 + 1) as usize;
+        all.swap(i, j);
+    }
+    let mut exs: Vec<usize> = all.into_iter().take(n_ex).collect();
+    if rng.chance(30) {
+        // the first and the last variant of the enum in one collection
+        exs[0] = 0;
+        exs[1] = ALL.len() - 1;
+    }
+    let words = ["btc", "eth", "usdt", "usd", "xbt", "sol", "ada", "dot", "ltc", "xrp", "bnb", "eur"];
+    let n_assets = rng.range(8, 24) as usize;
+    let mut assets: Vec<GA> = (0..n_assets)
+        .map(|k| {
+            let w = if k < words.len() { words[k].to_string() } else { format!("{}{}", words[k % words.len()], k / words.len()) };
+            // exchange names: upper-cased, or (25 %) one of a few shared tickers: two internal names
+            // of one exchange may carry the same exchange name
+            let x = if rng.chance(25) { format!("T{}", rng.below(3)) } else { w.to_uppercase() };
+            GA(w, x)
+        })
+        .collect();
+    if rng.chance(12) {
+        assets.push(GA("btc".into(), "XBT".into()));
+    }
+    let n_names = (n_defs / 3).max(4);
+    let inames: Vec<String> = (0..n_names)
+        .map(|k| match k % 3 {
+            0 => format!("{}_{}", words[k % words.len()], words[(k / 3) % words.len()]),
+            1 => format!("{}-perp{}", words[k % words.len()], k),
+            _ => format!("i{k}"),
+        })
+        .collect();
+    let mut defs: Vec<String> = vec![];
+    for _ in 0..n_defs {
+        let d = if !defs.is_empty() && rng.chance(15) {
+            rng.pick(&defs).clone() // verbatim repeat
+        } else {
+            gen_def_w(rng, &exs, &assets, &inames, false, true)
+        };
+        out.line(&d);
+        defs.push(d);
+    }
+    if rng.chance(50) {
+        let mut miss = vec![];
+        for a in &assets {
+            if rng.chance(10) {
+                miss.push(enc_s(&recase(rng, &a.0)));
+            }
+        }
+        out.line(format!("mak {} {}", rng.below(n_defs as u64 + 1), miss.join(" ")).trim_end());
+    }
+    out.line("build");
+    lookups(out, rng, &exs, &assets, &inames, n_defs, 16);
+    // the far end of the three tables: the sizes are not known to the generator, so sweep down
+    // from the largest possible size
+    for k in [n_ex, n_ex - 1, n_ex + 1, 255, 256, 65535, 65536] {
+        out.line(format!("fx {k}"));
+    }
+    for _ in 0..12 {
+        out.line(format!("fa {}", rng.below((n_ex * (n_assets + 1)) as u64 + 2)));
+        out.line(format!("fi {}", (n_defs + 1).saturating_sub(rng.below(n_defs as u64 / 2 + 2) as usize)));
+    }
+    for k in [255usize, 256, 257, 65535, 65536, 4294967295, 4294967296] {
+        out.line(format!("fa {k}"));
+        out.line(format!("fi {k}"));
+    }
+}
+
 fn generate(seed: u64, n_cases: usize, tier: &str) {
     let mut out = Out::new();
     let mut rng = Rng::new(seed);
@@ -1474,6 +1561,14 @@ fn generate(seed: u64, n_cases: usize, tier: &str) {
             3 => names_case(&mut out, &mut rng, true, if thorough { 24 } else { 12 }),
             _ => index_case(&mut out, &mut rng, thorough),
         }
+    }
+    // input-domain family, separately seeded: large collections (n / 80 cases of 50-130 definitions;
+    // every fifth one, the third first, 260-320 definitions: positions past u8)
+    let mut rng = Rng::new(seed ^ 0x11d0_d0a2);
+    for k in 0..n_cases / 80 {
+        out.case(format!("b{}", k + 1));
+        let n = if k % 5 == 2 { rng.range(260, 320) } else { rng.range(50, 130) } as usize;
+        index_case_big(&mut out, &mut rng, n);
     }
     out.flush();
 }
